@@ -156,6 +156,7 @@ class Categorize(Factory, Container):
         out = Categorize(self.quantity, self.value)
         # without a value template (container reloaded from JSON) the declared content type must be carried over
         out.contentType = self.contentType
+        out._emptyBinsName = self._binsName()
         return out
 
     @inheritdoc(Container)
@@ -168,6 +169,7 @@ class Categorize(Factory, Container):
             out = Categorize(self.quantity, self.value)
             out.entries = self.entries + other.entries
             out.contentType = self.contentType
+            out._emptyBinsName = self._binsName()
             out.bins = {}
             for k in self.keySet.union(other.keySet):
                 if k in self.bins and k in other.bins:
@@ -300,8 +302,8 @@ class Categorize(Factory, Container):
         """List of sub-aggregators, to make it possible to walk the tree."""
         return [self.value] + list(self.bins.values())
 
-    @inheritdoc(Container)
-    def toJsonFragment(self, suppressName):
+    def _binsName(self):
+        """Name of the quantity of the bins' sub-aggregators (kept separately while there is neither template nor bin)."""
         if isinstance(self.value, Container):
             if getattr(self.value, "quantity", None) is not None:
                 binsName = self.value.quantity.name
@@ -317,7 +319,12 @@ class Categorize(Factory, Container):
             else:
                 binsName = None
         else:
-            binsName = None
+            binsName = getattr(self, "_emptyBinsName", None)
+        return binsName
+
+    @inheritdoc(Container)
+    def toJsonFragment(self, suppressName):
+        binsName = self._binsName()
 
         if len(self.bins) > 0:
             bins_type = list(self.bins.values())[0].name
@@ -375,6 +382,7 @@ class Categorize(Factory, Container):
                 raise JsonFormatException(json, "Categorize.bins")
 
             out = Categorize.ed(entries, contentType, **bins)
+            out._emptyBinsName = dataName
             out.quantity.name = nameFromParent if name is None else name
             return out.specialize()
 
